@@ -449,9 +449,10 @@ class Model(ABC):
             Array with the same length as x where True indicates the point
             is within the prior bounds.
         """
-        return ~np.any(
+        # NaNs compare false, so test for being inside rather than outside
+        return np.all(
             [
-                (x[n] < self.bounds[n][0]) | (x[n] > self.bounds[n][1])
+                (x[n] >= self.bounds[n][0]) & (x[n] <= self.bounds[n][1])
                 for n in self.names
             ],
             axis=0,
